@@ -19,7 +19,14 @@ func (it *Interp) timeKey(t *Agg) string {
 }
 
 func (it *Interp) freshTime(name string) *Agg {
-	return &Agg{Cells: []Value{it.symVar(name+".wall", 64), it.symVar(name+".ext", 64), &Ptr{}}}
+	ext := it.symVar(name+".ext", 64)
+	if it.Concrete != nil {
+		ext = it.St.Const(64, ext.Val&(1<<61-1))
+	} else {
+		// keep instant arithmetic far from the 64-bit wrap-around (the real type saturates)
+		it.pushPC(it.St.Ult(ext, it.St.Const(64, 1<<61)))
+	}
+	return &Agg{Cells: []Value{it.symVar(name+".wall", 64), ext, &Ptr{}}}
 }
 
 // timeField returns the calendar field of an instant, constrained to [lo,hi].
@@ -61,13 +68,40 @@ func registerMoreStubs(it *Interp) {
 	s["(time.Time).Minute"] = field("minute")
 	s["(time.Time).Second"] = field("second")
 	s["(time.Time).UTC"] = func(it *Interp, fr *frame, cc *ssa.CallCommon, a []Value) Value { return a[0] }
+	// instants: ext holds an abstract nanosecond count, so Add/Before/Sub/Equal are exact
+	// integer arithmetic (time.Time's saturation and monotonic clock are ignored)
 	s["(time.Time).Add"] = func(it *Interp, fr *frame, cc *ssa.CallCommon, a []Value) Value {
 		t := a[0].(*Agg)
 		d := a[1].(*Term)
 		if d.IsConst() && d.Val == 0 {
 			return t
 		}
-		return it.freshTime(fmt.Sprintf("%s+%d", it.timeKey(t), d.ID))
+		return &Agg{Cells: []Value{t.Cells[0], it.St.Add(t.Cells[1].(*Term), d), t.Cells[2]}}
+	}
+	s["(time.Time).Before"] = func(it *Interp, fr *frame, cc *ssa.CallCommon, a []Value) Value {
+		return it.St.Slt(a[0].(*Agg).Cells[1].(*Term), a[1].(*Agg).Cells[1].(*Term))
+	}
+	s["(time.Time).After"] = func(it *Interp, fr *frame, cc *ssa.CallCommon, a []Value) Value {
+		return it.St.Slt(a[1].(*Agg).Cells[1].(*Term), a[0].(*Agg).Cells[1].(*Term))
+	}
+	s["(time.Time).Equal"] = func(it *Interp, fr *frame, cc *ssa.CallCommon, a []Value) Value {
+		return it.St.Eq(a[0].(*Agg).Cells[1].(*Term), a[1].(*Agg).Cells[1].(*Term))
+	}
+	s["(time.Time).Sub"] = func(it *Interp, fr *frame, cc *ssa.CallCommon, a []Value) Value {
+		return it.St.Sub(a[0].(*Agg).Cells[1].(*Term), a[1].(*Agg).Cells[1].(*Term))
+	}
+	// time.ParseDuration: the duration IS the symbolic input ("dur"), the error an arbitrary flag
+	s["time.ParseDuration"] = func(it *Interp, fr *frame, cc *ssa.CallCommon, a []Value) Value {
+		var bad *Term
+		if it.Concrete != nil {
+			bad = it.St.Bool(it.Concrete["parse-err"] != 0)
+		} else {
+			bad = it.St.Var("parse-err", BoolSort)
+		}
+		if it.branchOrConst(bad) {
+			return Tuple{it.c64(0), it.newError("time: invalid duration")}
+		}
+		return Tuple{it.symDuration(), it.nilError()}
 	}
 	s["(time.Time).Format"] = func(it *Interp, fr *frame, cc *ssa.CallCommon, a []Value) Value {
 		t := a[0].(*Agg)
@@ -125,6 +159,36 @@ func registerMoreStubs(it *Interp) {
 		}
 		return res
 	}
+	// Duration.Hours/Minutes/Seconds: executed from the real time SSA (floating point) unless
+	// the harness switched to contract mode (vFPContracts): then they return an abstract
+	// float whose integer part (and that of its quotient by 24) is the integer quotient
+	// proved by the lemma jobs (C19: contract_proved_by VH_C19_lemma).
+	durStub := func(name string, unit int64, divs map[uint64]int64) {
+		fn := "(time.Duration)." + name
+		s[fn] = func(it *Interp, fr *frame, cc *ssa.CallCommon, a []Value) Value {
+			d := a[0].(*Term)
+			if !it.FPContracts || d.IsConst() {
+				f := it.Prog.ImportedPackage("time").Type("Duration")
+				m := it.Prog.LookupMethod(f.Type(), f.Package().Pkg, name)
+				return it.callBody(fr, m, a, nil, cc)
+			}
+			it.freshN["fp"]++
+			v := it.St.Var(fmt.Sprintf("fp#%s%d_%d", name, it.freshN["fp"], d.ID), FPSort)
+			if it.fpInt == nil {
+				it.fpInt = map[*Term]*Term{}
+				it.fpDiv = map[*Term]map[uint64]*Term{}
+			}
+			it.fpInt[v] = it.St.SDiv(d, it.c64(unit))
+			it.fpDiv[v] = map[uint64]*Term{}
+			for c, u := range divs {
+				it.fpDiv[v][c] = it.St.SDiv(d, it.c64(u))
+			}
+			return v
+		}
+	}
+	durStub("Hours", 3600000000000, map[uint64]int64{fbitsOf(24): 86400000000000})
+	durStub("Minutes", 60000000000, nil)
+	durStub("Seconds", 1000000000, nil)
 	s["strconv.Atoi"] = func(it *Interp, fr *frame, cc *ssa.CallCommon, a []Value) Value {
 		x := a[0].(*Str)
 		if cs, ok := it.concreteStr(x); ok {
@@ -185,4 +249,24 @@ func registerMoreStubs(it *Interp) {
 		}
 		return it.formatInt(a[0].(*Term), false, 0, false)
 	}
+}
+
+func fbitsOf(f float64) uint64 { return fbits(f) }
+
+// symDuration: the symbolic duration handed out by the ParseDuration stub:
+// (+/-) (dursecs * 1e9 + durfrac) with dursecs a 32-bit second count and durfrac < 1e9;
+// the sign is the job parameter durneg. The harness builds the same value natively.
+func (it *Interp) symDuration() *Term {
+	st := it.St
+	secs := st.Zext(it.symVar("dursecs", 32), 64)
+	d := st.Mul(secs, it.c64(1000000000))
+	fr := it.symVar("durfrac", 32)
+	if k, ok := it.known[fr]; ok {
+		fr = k
+	}
+	d = st.Add(d, st.Zext(fr, 64))
+	if it.Params["durneg"] == 1 {
+		d = st.Neg(d)
+	}
+	return d
 }
